@@ -1,7 +1,7 @@
 """C04 — the client accepts only the genuine matching reply and returns exactly its data (structural clauses)."""
 from core import rule, loc_of
 from facts import AnchorLost, norm
-import q, effects
+import q, effects, inline
 from tables import *
 from rules.c08 import one
 from rules.c03 import RD, REQ_TYPES
@@ -115,8 +115,14 @@ def r3(c):
     sites = P.callers(*succ, crate='rodbus')
     where = sorted({P.logical_name(cs.body) for cs in sites})
     c.ob('callers', where == sorted(owners), 'Promise::success is called only by the four handle_response functions', str(where), examined=len(sites))
+    READ_PARSERS = {'rodbus::client::requests::read_bits::ReadBits::parse_bits_response': 'rodbus::types::BitIterator::parse_all',
+                    'rodbus::client::requests::read_registers::ReadRegisters::parse_registers_response': 'rodbus::types::RegisterIterator::parse_all'}
     for f, (sc, parser) in owners.items():
         b = P.fn(f)
+        if parser in READ_PARSERS:
+            # the two read parsers are thin private wrappers of parse_all: handle_response is looked at with them expanded
+            b = inline.expand(P, b, {parser})
+            parser = READ_PARSERS[parser]
         c.saw(b, len(b.calls()))
         s = one(b.calls(sc), 'success in ' + f)
         p = one(b.calls(parser), 'parser in ' + f)
@@ -134,21 +140,20 @@ def r4(c):
     P = c.P
     for f, it in (('rodbus::client::requests::read_bits::ReadBits::parse_bits_response', 'rodbus::types::BitIterator::parse_all'),
                   ('rodbus::client::requests::read_registers::ReadRegisters::parse_registers_response', 'rodbus::types::RegisterIterator::parse_all')):
-        b = P.fn(f)
-        c.saw(b, len(b.calls()))
+        hb = inline.expand(P, P.fn('::'.join(f.split('::')[:-1]) + '::handle_response'), {f})
+        c.saw(hb, len(hb.calls()))
         nm = f.split('::')[-2]
-        ok, why = q.must_call_on_ok(P, f, (it,))
-        c.ob('%s/parse_all' % nm, ok, 'every success exit passes through %s' % it, why, loc_of(b))
-        pa = one(b.calls(it), it)
-        c.ob('%s/range-param' % nm, q.is_name(b, pa.args[0], 'range') and q.is_name(b, pa.args[1], 'cursor'), 'parse_all is given the range parameter and the reply cursor', '', pa.loc())
+        pa = one(hb.calls(it), it)
+        oks = [x for x in q.exits(hb) if x['kind'] == 'agg' and x['variant'] == 'Ok']
+        ok = bool(oks) and all(q.dominated_by_any(hb, q.outcomes(hb, pa).get('success', []), x['node']) for x in oks)
+        c.ob('%s/parse_all' % nm, ok, 'every success exit passes through %s (checked)' % it, '%d Ok exits' % len(oks), loc_of(hb))
+        c.ob('%s/range-param' % nm, q.is_name(hb, pa.args[1], 'cursor'), 'parse_all reads from the reply cursor', '', pa.loc())
         ok2, why2 = q.must_call_on_ok(P, it, (EXPECT_EMPTY,))
         c.ob('%s/exact-length' % nm, ok2, 'parse_all requires the reply to end exactly after the data', why2, pa.loc())
-        # caller passes the requested range
-        hb = P.fn('::'.join(f.split('::')[:-1]) + '::handle_response')
-        cs = one(hb.calls(f), 'parser call')
-        s = q.sem(hb, cs.args[0])
+        # the range used to interpret the reply is the requested one
+        s = q.sem(hb, pa.args[0])
         okr = s.kind == 'call' and s.cs.callee.endswith('Range::get') and q.sem_is_name(hb, q.sem(hb, s.cs.args[0]), 'self') and any('request' in p for p in q.sem(hb, s.cs.args[0]).proj)
-        c.ob('%s/requested-range' % nm, okr, 'the range used to interpret the reply is self.request (the request), not reply data', repr(s), cs.loc())
+        c.ob('%s/requested-range' % nm, okr, 'the range used to interpret the reply is self.request (the request), not reply data', repr(s), pa.loc())
     # single write
     b = P.fn('rodbus::client::requests::write_single::SingleWrite::parse_all')
     c.saw(b, len(b.calls()))
